@@ -429,6 +429,18 @@ def inject(schema, document):
                 yield "5.8.3", "under-sibling-spread|%s|depth-%d" % (ptag, deep), replace(
                     D, defs=D.defs[:di] + (o583,) + D.defs[di + 1:] + tuple(sibs) + tuple(chain))
         break
+    # a variable used in a directive on a fragment *definition*: undefined (5.8.3) / of a disallowed type (5.8.5) for the operation that
+    # spreads the fragment, while the definition written just before the fragment is an operation that declares it properly
+    if schema.directive("dq") is not None and schema.root("query"):
+        rt = schema.root("query")
+        fd = Fragment("ZzFD", rt, (Directive("dq", (Arg("n", Var("zzFD")),)),), (Field("__typename", "tfd"),))
+        good = Operation("query", "ZzGood", (VarDef("zzFD", "Int"),), (), (Field("__typename", "tg", (), (Directive("dq", (Arg("n", Var("zzFD")),)),)),))
+        for rule, bad in (("5.8.3", Operation("query", "ZzBad", (), (), (Spread("ZzFD"),))),
+                          ("5.8.5", Operation("query", "ZzBad", (VarDef("zzFD", "String"),), (), (Spread("ZzFD"),)))):
+            for tag, defs in (("bad-good-fragment", (bad, good, fd)), ("good-bad-fragment", (good, bad, fd)), ("fragment-bad-good", (fd, bad, good)),
+                              ("bad-fragment-good", (bad, fd, good))):
+                named = tuple(replace(x, name=x.name or "ZzMain", shorthand=False) if isinstance(x, Operation) else x for x in D.defs)
+                yield rule, "fragment-definition-directive|" + tag, replace(D, defs=named + defs)
     # variable defined by the *other* operation only
     if len(ops) >= 2 and all(o.name for o in ops):
         o0i = [i for i, x in enumerate(D.defs) if isinstance(x, Operation)]
